@@ -16,3 +16,393 @@ Definition expected_index_rows : list (string * (string * string)) :=
    (".ProviderPriority", (s_nl +++ "k:", ".ProviderPriority"))].
 Lemma index_rows_pinned : index_template_rows = expected_index_rows /\ index_template_trailer = s_nl +++ s_nl /\ index_join_sep = " ".
 Proof. vm_compute. auto. Qed.
+
+
+(* ---- lines written conditionally ----------------------------------------------- *)
+Definition opt_line (c : bool) (l : string) : list string := if c then [l] else [].
+Fixpoint lines_of (items : list (bool * string)) : list string :=
+  match items with [] => [] | (c, l) :: r => opt_line c l ++ lines_of r end.
+Definition piece (it : bool * string) : string := if fst it then String ch_nl (snd it) else "".
+
+Lemma unlines_app a b : unlines (a ++ b) = unlines a +++ unlines b.
+Proof. induction a as [|x a IH]; simpl; [reflexivity|]. rewrite IH, sapp_assoc. reflexivity. Qed.
+
+(* "first\nl1\nl2...\n\n" is the lines followed by a blank line *)
+Lemma pieces_unlines items : forall first,
+  sconcat (first :: map piece items ++ [s_nl +++ s_nl]) = unlines (first :: lines_of items ++ [""]).
+Proof.
+  induction items as [|[c l] items IH]; intro first.
+  - reflexivity.
+  - destruct c.
+    + change (sconcat (first :: map piece ((true, l) :: items) ++ [s_nl +++ s_nl]))
+        with (first +++ String ch_nl (sconcat (l :: map piece items ++ [s_nl +++ s_nl]))).
+      rewrite IH. reflexivity.
+    + change (sconcat (first :: map piece ((false, l) :: items) ++ [s_nl +++ s_nl]))
+        with (sconcat (first :: map piece items ++ [s_nl +++ s_nl])).
+      rewrite IH. reflexivity.
+Qed.
+
+Section RT.
+Variable enc : list N -> string.
+Variable dec : string -> option (list N).
+Hypothesis codec : forall b, dec (enc b) = Some b.
+
+Definition index_items (p : pkg) : list (bool * string) :=
+  [(true, "P:" +++ p_name p); (true, "V:" +++ p_version p);
+   (snonempty (p_arch p), "A:" +++ p_arch p);
+   (negb (p_size p =? 0)%N, "S:" +++ fmt_n (p_size p));
+   (negb (p_isize p =? 0)%N, "I:" +++ fmt_n (p_isize p));
+   (true, "T:" +++ p_desc p);
+   (snonempty (p_url p), "U:" +++ p_url p);
+   (snonempty (p_license p), "L:" +++ p_license p);
+   (snonempty (p_origin p), "o:" +++ p_origin p);
+   (snonempty (p_maint p), "m:" +++ p_maint p);
+   (negb (p_btime p =? zero_time_unix)%Z, "t:" +++ fmt_z (p_btime p));
+   (snonempty (p_commit p), "c:" +++ p_commit p);
+   (lnonempty (p_deps p), "D:" +++ join " " (p_deps p));
+   (lnonempty (p_installif p), "i:" +++ join " " (p_installif p));
+   (lnonempty (p_provides p), "p:" +++ join " " (p_provides p));
+   (negb (p_prio p =? 0)%N, "k:" +++ fmt_n (p_prio p))].
+(* the lines of one APKINDEX record *)
+Definition index_lines (p : pkg) : list string := ("C:" +++ checksum_string enc p) :: lines_of (index_items p).
+
+Lemma exec_template_lines p :
+  exec_template enc expected_index_rows (s_nl +++ s_nl) p = unlines (index_lines p ++ [""]).
+Proof.
+  unfold index_lines. rewrite <- app_comm_cons. rewrite <- pieces_unlines. reflexivity.
+Qed.
+
+Definition record_lines (p : pkg) : list string := index_lines p ++ [""].
+Lemma write_index_lines ps :
+  write_index_with enc expected_index_rows (s_nl +++ s_nl) ps = unlines (flat_map record_lines (named ps)).
+Proof.
+  unfold write_index_with, named. induction ps as [|p ps IH]; [reflexivity|].
+  cbn [map sconcat filter]. unfold snonempty at 1. destruct (p_name p =? ""); cbn [negb].
+  - rewrite IH. reflexivity.
+  - cbn [flat_map]. rewrite unlines_app, <- IH, exec_template_lines. reflexivity.
+Qed.
+
+(* ---- reading the lines back ------------------------------------------------------ *)
+Definition idx_step (l : string) (cur : pkg) : res pkg :=
+  do tv <- idx_split l;
+  do r <- pkg_field dec false (fst tv) (snd tv) cur;
+  Ok (match r with Some p => p | None => cur end).
+
+Lemma idx_lines_cons l ls cur acc : (String.length l =? 0)%nat = false ->
+  idx_lines dec (l :: ls) cur acc = do c <- idx_step l cur; idx_lines dec ls c acc.
+Proof.
+  intro H. cbn [idx_lines]. rewrite H. unfold idx_step.
+  destruct (idx_split l) as [tv| | |]; cbn [rbind]; try reflexivity.
+  destruct (pkg_field dec false (fst tv) (snd tv) cur); reflexivity.
+Qed.
+
+Lemma idx_lines_blank ls cur acc :
+  idx_lines dec ("" :: ls) cur acc = idx_lines dec ls empty_pkg (if snonempty (p_name cur) then cur :: acc else acc).
+Proof. reflexivity. Qed.
+
+Lemma step_opt (c : bool) (l : string) (f : pkg -> pkg) ls cur acc :
+  (String.length l =? 0)%nat = false ->
+  (c = true -> idx_step l cur = Ok (f cur)) -> (c = false -> f cur = cur) ->
+  idx_lines dec (opt_line c l ++ ls) cur acc = idx_lines dec ls (f cur) acc.
+Proof.
+  intros Hl Ht Hf. destruct c; cbn [opt_line app].
+  - rewrite idx_lines_cons by exact Hl. rewrite (Ht eq_refl). reflexivity.
+  - rewrite (Hf eq_refl). reflexivity.
+Qed.
+
+Definition item_ok (x : string) : Prop := x <> "" /\ has_char " " x = false.
+Lemma split_repeated_join l : l <> [] -> Forall item_ok l -> split_repeated (join " " l) = l.
+Proof.
+  intros Hn HF. unfold split_repeated.
+  assert (E : (join " " l =? "") = false).
+  { destruct l as [|x l]; [congruence|]. inversion HF as [|? ? [Hx _] _]; subst.
+    destruct x as [|a x]; [congruence|]. destruct l; reflexivity. }
+  rewrite E. change " " with (String " "%char "") at 1. apply split_join; [exact Hn|].
+  eapply Forall_impl; [|exact HF]. intros x [_ H]. exact H.
+Qed.
+Lemma lnonempty_true {A} (l : list A) : lnonempty l = true -> l <> [].
+Proof. destruct l; [discriminate|congruence]. Qed.
+Lemma lnonempty_false {A} (l : list A) : lnonempty l = false -> l = [].
+Proof. destruct l; [reflexivity|discriminate]. Qed.
+Lemma snonempty_false s : snonempty s = false -> s = "".
+Proof. unfold snonempty. intro H. apply negb_false_iff in H. apply String.eqb_eq in H. exact H. Qed.
+Lemma nnonzero_false n : negb (n =? 0)%N = false -> n = 0%N.
+Proof. intro H. apply negb_false_iff in H. apply N.eqb_eq in H. exact H. Qed.
+
+(* what the index keeps of a record: everything but replaces (C16-F3); BuildDate
+   is the build time when a t: line was written *)
+Definition norm_index (p : pkg) : pkg :=
+  set_replaces [] (set_bdate (if negb (p_btime p =? zero_time_unix)%Z then p_btime p else 0%Z) p).
+
+Record pkg_ok (p : pkg) : Prop := {
+  ok_size : (p_size p < two64)%N; ok_isize : (p_isize p < two64)%N; ok_prio : (p_prio p < two64)%N;
+  ok_btime : (- Z.of_N two63 <= p_btime p < Z.of_N two63)%Z;
+  ok_deps : Forall item_ok (p_deps p); ok_provides : Forall item_ok (p_provides p);
+  ok_installif : Forall item_ok (p_installif p) }.
+
+Opaque fmt_n fmt_z parse_uint64 parse_int64 split_repeated join.
+
+Lemma pkg_ext (a b : pkg) :
+  p_name a = p_name b ->
+  p_version a = p_version b ->
+  p_arch a = p_arch b ->
+  p_desc a = p_desc b ->
+  p_license a = p_license b ->
+  p_origin a = p_origin b ->
+  p_maint a = p_maint b ->
+  p_url a = p_url b ->
+  p_commit a = p_commit b ->
+  p_checksum a = p_checksum b ->
+  p_deps a = p_deps b ->
+  p_provides a = p_provides b ->
+  p_installif a = p_installif b ->
+  p_replaces a = p_replaces b ->
+  p_size a = p_size b ->
+  p_isize a = p_isize b ->
+  p_prio a = p_prio b ->
+  p_btime a = p_btime b ->
+  p_bdate a = p_bdate b -> a = b.
+Proof. destruct a, b; cbn; intros; subst; reflexivity. Qed.
+Lemma set_arch_id cur : p_arch cur = "" -> set_arch "" cur = cur.
+Proof. destruct cur; cbn; intros ->; reflexivity. Qed.
+Lemma set_url_id cur : p_url cur = "" -> set_url "" cur = cur.
+Proof. destruct cur; cbn; intros ->; reflexivity. Qed.
+Lemma set_license_id cur : p_license cur = "" -> set_license "" cur = cur.
+Proof. destruct cur; cbn; intros ->; reflexivity. Qed.
+Lemma set_origin_id cur : p_origin cur = "" -> set_origin "" cur = cur.
+Proof. destruct cur; cbn; intros ->; reflexivity. Qed.
+Lemma set_maint_id cur : p_maint cur = "" -> set_maint "" cur = cur.
+Proof. destruct cur; cbn; intros ->; reflexivity. Qed.
+Lemma set_commit_id cur : p_commit cur = "" -> set_commit "" cur = cur.
+Proof. destruct cur; cbn; intros ->; reflexivity. Qed.
+Lemma set_deps_id cur : p_deps cur = [] -> set_deps [] cur = cur.
+Proof. destruct cur; cbn; intros ->; reflexivity. Qed.
+Lemma set_installif_id cur : p_installif cur = [] -> set_installif [] cur = cur.
+Proof. destruct cur; cbn; intros ->; reflexivity. Qed.
+Lemma set_provides_id cur : p_provides cur = [] -> set_provides [] cur = cur.
+Proof. destruct cur; cbn; intros ->; reflexivity. Qed.
+Lemma set_size_id cur : p_size cur = 0%N -> set_size 0%N cur = cur.
+Proof. destruct cur; cbn; intros ->; reflexivity. Qed.
+Lemma set_isize_id cur : p_isize cur = 0%N -> set_isize 0%N cur = cur.
+Proof. destruct cur; cbn; intros ->; reflexivity. Qed.
+Lemma set_prio_id cur : p_prio cur = 0%N -> set_prio 0%N cur = cur.
+Proof. destruct cur; cbn; intros ->; reflexivity. Qed.
+Lemma set_time_id cur : p_btime cur = zero_time_unix -> p_bdate cur = 0%Z -> set_bdate 0%Z (set_btime zero_time_unix cur) = cur.
+Proof. destruct cur; cbn; intros -> ->; reflexivity. Qed.
+Lemma step_name v cur : idx_step ("P:" +++ v) cur = Ok (set_name v cur).
+Proof. reflexivity. Qed.
+Lemma step_version v cur : idx_step ("V:" +++ v) cur = Ok (set_version v cur).
+Proof. reflexivity. Qed.
+Lemma step_arch v cur : idx_step ("A:" +++ v) cur = Ok (set_arch v cur).
+Proof. reflexivity. Qed.
+Lemma step_desc v cur : idx_step ("T:" +++ v) cur = Ok (set_desc v cur).
+Proof. reflexivity. Qed.
+Lemma step_url v cur : idx_step ("U:" +++ v) cur = Ok (set_url v cur).
+Proof. reflexivity. Qed.
+Lemma step_license v cur : idx_step ("L:" +++ v) cur = Ok (set_license v cur).
+Proof. reflexivity. Qed.
+Lemma step_origin v cur : idx_step ("o:" +++ v) cur = Ok (set_origin v cur).
+Proof. reflexivity. Qed.
+Lemma step_maint v cur : idx_step ("m:" +++ v) cur = Ok (set_maint v cur).
+Proof. reflexivity. Qed.
+Lemma step_commit v cur : idx_step ("c:" +++ v) cur = Ok (set_commit v cur).
+Proof. reflexivity. Qed.
+Lemma step_size n cur : (n < two64)%N -> idx_step ("S:" +++ fmt_n n) cur = Ok (set_size n cur).
+Proof. intro H. unfold idx_step. cbn. rewrite (parse_uint64_fmt _ H). reflexivity. Qed.
+Lemma step_isize n cur : (n < two64)%N -> idx_step ("I:" +++ fmt_n n) cur = Ok (set_isize n cur).
+Proof. intro H. unfold idx_step. cbn. rewrite (parse_uint64_fmt _ H). reflexivity. Qed.
+Lemma step_prio n cur : (n < two64)%N -> idx_step ("k:" +++ fmt_n n) cur = Ok (set_prio n cur).
+Proof. intro H. unfold idx_step. cbn. rewrite (parse_uint64_fmt _ H). reflexivity. Qed.
+Lemma step_deps l cur : l <> [] -> Forall item_ok l -> idx_step ("D:" +++ join " " l) cur = Ok (set_deps l cur).
+Proof. intros H1 H2. unfold idx_step. cbn. rewrite (split_repeated_join _ H1 H2). reflexivity. Qed.
+Lemma step_installif l cur : l <> [] -> Forall item_ok l -> idx_step ("i:" +++ join " " l) cur = Ok (set_installif l cur).
+Proof. intros H1 H2. unfold idx_step. cbn. rewrite (split_repeated_join _ H1 H2). reflexivity. Qed.
+Lemma step_provides l cur : l <> [] -> Forall item_ok l -> idx_step ("p:" +++ join " " l) cur = Ok (set_provides l cur).
+Proof. intros H1 H2. unfold idx_step. cbn. rewrite (split_repeated_join _ H1 H2). reflexivity. Qed.
+Lemma step_t z cur : (- Z.of_N two63 <= z < Z.of_N two63)%Z -> idx_step ("t:" +++ fmt_z z) cur = Ok (set_bdate z (set_btime z cur)).
+Proof. intro H. unfold idx_step. cbn. rewrite (parse_int64_fmt _ H). reflexivity. Qed.
+Lemma step_C b cur : idx_step ("C:" +++ checksum_string enc (set_checksum b empty_pkg)) cur = Ok (set_checksum b cur).
+Proof. unfold idx_step, checksum_string. cbn. rewrite codec. reflexivity. Qed.
+
+Ltac flat := cbn beta iota delta [empty_pkg set_name p_name set_version p_version set_arch p_arch set_desc p_desc set_license p_license set_origin p_origin set_maint p_maint set_url p_url set_commit p_commit set_checksum p_checksum set_deps p_deps set_provides p_provides set_installif p_installif set_replaces p_replaces set_size p_size set_isize p_isize set_prio p_prio set_btime p_btime set_bdate p_bdate].
+Lemma read_record p rest acc : pkg_ok p ->
+  idx_lines dec (record_lines p ++ rest) empty_pkg acc =
+  idx_lines dec rest empty_pkg (if snonempty (p_name p) then norm_index p :: acc else acc).
+Proof.
+  intros [Hs Hi Hk Hb Hd Hp Hf].
+  unfold record_lines, index_lines, index_items. cbn [lines_of].
+  rewrite <- !app_assoc. cbn [app].
+  rewrite idx_lines_cons by reflexivity.
+  change (checksum_string enc p) with (checksum_string enc (set_checksum (p_checksum p) empty_pkg)).
+  rewrite step_C. cbn [rbind]. rewrite <- !app_assoc. cbn [app].
+  flat.
+  rewrite (step_opt _ _ (set_name (p_name p))); [|reflexivity|intros _; apply step_name|discriminate].
+  flat.
+  rewrite (step_opt _ _ (set_version (p_version p))); [|reflexivity|intros _; apply step_version|discriminate].
+  flat.
+  rewrite (step_opt _ _ (set_arch (p_arch p))); [|reflexivity|intros _; apply step_arch|intro E; apply snonempty_false in E; rewrite E; apply set_arch_id; reflexivity].
+  flat.
+  rewrite (step_opt _ _ (set_size (p_size p))); [|reflexivity|intros _; apply step_size; exact Hs|intro E; apply nnonzero_false in E; rewrite E; apply set_size_id; reflexivity].
+  flat.
+  rewrite (step_opt _ _ (set_isize (p_isize p))); [|reflexivity|intros _; apply step_isize; exact Hi|intro E; apply nnonzero_false in E; rewrite E; apply set_isize_id; reflexivity].
+  flat.
+  rewrite (step_opt _ _ (set_desc (p_desc p))); [|reflexivity|intros _; apply step_desc|discriminate].
+  flat.
+  rewrite (step_opt _ _ (set_url (p_url p))); [|reflexivity|intros _; apply step_url|intro E; apply snonempty_false in E; rewrite E; apply set_url_id; reflexivity].
+  flat.
+  rewrite (step_opt _ _ (set_license (p_license p))); [|reflexivity|intros _; apply step_license|intro E; apply snonempty_false in E; rewrite E; apply set_license_id; reflexivity].
+  flat.
+  rewrite (step_opt _ _ (set_origin (p_origin p))); [|reflexivity|intros _; apply step_origin|intro E; apply snonempty_false in E; rewrite E; apply set_origin_id; reflexivity].
+  flat.
+  rewrite (step_opt _ _ (set_maint (p_maint p))); [|reflexivity|intros _; apply step_maint|intro E; apply snonempty_false in E; rewrite E; apply set_maint_id; reflexivity].
+  flat.
+  rewrite (step_opt _ _ (fun c => set_bdate (if negb (p_btime p =? zero_time_unix)%Z then p_btime p else 0%Z) (set_btime (p_btime p) c))); [|reflexivity| |].
+  2:{ intros E. rewrite E. apply step_t. exact Hb. }
+  2:{ intro E. rewrite E. apply negb_false_iff in E. apply Z.eqb_eq in E. rewrite E. apply set_time_id; reflexivity. }
+  flat.
+  rewrite (step_opt _ _ (set_commit (p_commit p))); [|reflexivity|intros _; apply step_commit|intro E; apply snonempty_false in E; rewrite E; apply set_commit_id; reflexivity].
+  flat.
+  rewrite (step_opt _ _ (set_deps (p_deps p))); [|reflexivity|intros E; apply step_deps; [apply lnonempty_true; exact E|exact Hd]|intro E; apply lnonempty_false in E; rewrite E; apply set_deps_id; reflexivity].
+  flat.
+  rewrite (step_opt _ _ (set_installif (p_installif p))); [|reflexivity|intros E; apply step_installif; [apply lnonempty_true; exact E|exact Hf]|intro E; apply lnonempty_false in E; rewrite E; apply set_installif_id; reflexivity].
+  flat.
+  rewrite (step_opt _ _ (set_provides (p_provides p))); [|reflexivity|intros E; apply step_provides; [apply lnonempty_true; exact E|exact Hp]|intro E; apply lnonempty_false in E; rewrite E; apply set_provides_id; reflexivity].
+  flat.
+  rewrite (step_opt _ _ (set_prio (p_prio p))); [|reflexivity|intros _; apply step_prio; exact Hk|intro E; apply nnonzero_false in E; rewrite E; apply set_prio_id; reflexivity].
+  flat.
+  rewrite idx_lines_blank.
+  match goal with |- idx_lines dec rest empty_pkg (if snonempty (p_name ?q) then ?q :: acc else acc) = _ => set (Q := q) end.
+  assert (EQ : Q = norm_index p).
+  { apply pkg_ext. all: subst Q. all: vm_compute. all: reflexivity. }
+  rewrite EQ. replace (p_name (norm_index p)) with (p_name p) by reflexivity. reflexivity.
+Qed.
+
+Lemma read_records ps : Forall pkg_ok ps -> forall acc,
+  idx_lines dec (flat_map record_lines (named ps)) empty_pkg acc = Ok (rev acc ++ map norm_index (named ps)).
+Proof.
+  induction ps as [|p ps IH]; intros HF acc.
+  - cbn. rewrite app_nil_r. reflexivity.
+  - inversion HF as [|? ? Hp Hps]; subst. unfold named in *. cbn [filter].
+    destruct (snonempty (p_name p)) eqn:E.
+    + cbn [flat_map map]. rewrite (read_record p _ acc Hp), E, (IH Hps). cbn [rev]. rewrite <- app_assoc. reflexivity.
+    + apply IH. exact Hps.
+Qed.
+Transparent fmt_n fmt_z parse_uint64 parse_int64 split_repeated join.
+
+(* every written line is free of LF, does not end in CR, and fits the reader's token limit *)
+Definition lines_fit (max : N) (ls : list string) : Prop := Forall (fun l => line_ok l /\ (nlen l + 1 <= max)%N) ls.
+
+Theorem index_roundtrip_lines ps :
+  index_template_rows = expected_index_rows -> index_template_trailer = s_nl +++ s_nl ->
+  Forall pkg_ok ps -> lines_fit index_max_token (flat_map record_lines (named ps)) ->
+  parse_index dec (write_index enc ps) = Ok (map norm_index (named ps)).
+Proof.
+  intros Hr Ht Hok Hfit. unfold parse_index, parse_index_max, write_index. rewrite Hr, Ht, write_index_lines.
+  rewrite (scan_unlines _ _ Hfit). rewrite (read_records ps Hok []). reflexivity.
+Qed.
+
+(* with the tables read from the source *)
+Theorem index_roundtrip ps :
+  Forall pkg_ok ps -> lines_fit index_max_token (flat_map record_lines (named ps)) ->
+  parse_index dec (write_index enc ps) = Ok (map norm_index (named ps)).
+Proof.
+  destruct index_rows_pinned as (Hr & Ht & _). apply index_roundtrip_lines; assumption.
+Qed.
+
+Lemma same_norm p : p_replaces p = [] -> SamePkg p (norm_index p).
+Proof. intro H. constructor; try reflexivity. rewrite H. reflexivity. Qed.
+Lemma same_norm_all l : Forall (fun p => p_replaces p = []) l -> Forall2 SamePkg l (map norm_index l).
+Proof. induction 1; cbn; constructor; auto using same_norm. Qed.
+Lemma named_forall (P : pkg -> Prop) ps : Forall P ps -> Forall P (named ps).
+Proof. unfold named. induction 1; cbn; [constructor|]. destruct (snonempty (p_name x)); [constructor|]; assumption. Qed.
+
+Theorem index_roundtrip_spec ps :
+  Forall pkg_ok ps -> lines_fit index_max_token (flat_map record_lines (named ps)) ->
+  Forall (fun p => p_replaces p = []) ps ->
+  IndexRoundTrip ps (parse_index dec (write_index enc ps)).
+Proof.
+  intros H1 H2 H3. exists (map norm_index (named ps)). split; [apply index_roundtrip; assumption|].
+  apply same_norm_all, named_forall, H3.
+Qed.
+
+(* reading then writing again reproduces the file: the writer does not look at what norm_index changes *)
+Lemma exec_template_norm p :
+  exec_template enc expected_index_rows (s_nl +++ s_nl) (norm_index p) = exec_template enc expected_index_rows (s_nl +++ s_nl) p.
+Proof. destruct p. reflexivity. Qed.
+Lemma write_index_norm ps :
+  write_index_with enc expected_index_rows (s_nl +++ s_nl) (map norm_index (named ps)) =
+  write_index_with enc expected_index_rows (s_nl +++ s_nl) ps.
+Proof.
+  unfold write_index_with, named. induction ps as [|p ps IH]; [reflexivity|].
+  cbn [filter]. destruct (snonempty (p_name p)) eqn:E.
+  - cbn [map sconcat]. rewrite IH, exec_template_norm.
+    replace (p_name (norm_index p)) with (p_name p) by (destruct p; reflexivity). reflexivity.
+  - cbn [map sconcat]. rewrite IH. unfold snonempty in E. apply negb_false_iff in E. rewrite E. reflexivity.
+Qed.
+Theorem index_read_write_fixpoint ps :
+  Forall pkg_ok ps -> lines_fit index_max_token (flat_map record_lines (named ps)) ->
+  exists l, parse_index dec (write_index enc ps) = Ok l /\ write_index enc l = write_index enc ps.
+Proof.
+  intros H1 H2. exists (map norm_index (named ps)). split; [apply index_roundtrip; assumption|].
+  unfold write_index. destruct index_rows_pinned as (Hr & Ht & _). rewrite Hr, Ht. apply write_index_norm.
+Qed.
+End RT.
+
+(* the index drops replaces (finding C16-F3) *)
+Definition witness_replaces : pkg := set_replaces ["b"] (set_version "1" (set_name "a" empty_pkg)).
+Lemma index_replaces_refuted :
+  let enc := fun _ : list N => "" in let dec := fun _ : string => Some (@nil N) in
+  dec (enc (p_checksum witness_replaces)) = Some (p_checksum witness_replaces) /\
+  ~ IndexRoundTrip [witness_replaces] (parse_index dec (write_index enc [witness_replaces])).
+Proof.
+  cbn zeta. split; [reflexivity|]. intros (l & Hl & HF). vm_compute in Hl. injection Hl as <-.
+  vm_compute in HF. inversion HF as [|? ? ? ? HS _]; subst. destruct HS as [_ _ _ _ _ _ _ _ _ _ _ _ _ Hr _ _ _ _]. discriminate.
+Qed.
+
+(* ---- the validator decides the Prop ------------------------------------------------ *)
+Lemma tag_if_nil b t : tag_if b t = [] <-> b = false.
+Proof. destruct b; cbn; split; congruence. Qed.
+Lemma strs_eqb_eq a b : strs_eqb a b = true <-> a = b.
+Proof. apply list_eqb_spec. intros; apply String.eqb_eq. Qed.
+Lemma bytes_eqb_eq a b : bytes_eqb a b = true <-> a = b.
+Proof. apply list_eqb_spec. intros; apply N.eqb_eq. Qed.
+Lemma strs_eqb_refl a : strs_eqb a a = true.
+Proof. apply strs_eqb_eq. reflexivity. Qed.
+Lemma bytes_eqb_refl a : bytes_eqb a a = true.
+Proof. apply bytes_eqb_eq. reflexivity. Qed.
+
+Lemma pkg_tags_sound k a b : pkg_tags k a b = [] -> SamePkg a b.
+Proof.
+  unfold pkg_tags. intro H.
+  repeat (apply app_eq_nil in H; let H1 := fresh "T" in destruct H as [H1 H]).
+  repeat match goal with
+  | T : tag_if _ _ = [] |- _ => apply tag_if_nil, negb_false_iff in T
+  end.
+  destruct (strs_eqb (p_installif a) (p_installif b)) eqn:EI;
+    [| destruct ((k =? "installed") && _); discriminate ].
+  destruct (strs_eqb (p_replaces a) (p_replaces b)) eqn:ER;
+    [| destruct ((k =? "index") && _); discriminate ].
+  constructor;
+    first [ apply String.eqb_eq; assumption | apply N.eqb_eq; assumption | apply Z.eqb_eq; assumption
+          | apply strs_eqb_eq; assumption | apply bytes_eqb_eq; assumption ].
+Qed.
+Lemma pkg_tags_complete k a b : SamePkg a b -> pkg_tags k a b = [].
+Proof.
+  intros []. unfold pkg_tags.
+  repeat match goal with E : _ = _ |- _ => rewrite <- E; clear E end.
+  rewrite !String.eqb_refl, !N.eqb_refl, !Z.eqb_refl, !strs_eqb_refl, bytes_eqb_refl. reflexivity.
+Qed.
+Lemma pkgs_tags_iff k a : forall b, pkgs_tags k a b = [] <-> Forall2 SamePkg a b.
+Proof.
+  induction a as [|x a IH]; destruct b as [|y b]; cbn; split; intro H; try (constructor; fail); try discriminate; try (inversion H; fail).
+  - apply app_eq_nil in H. destruct H as [H1 H2]. constructor; [eapply pkg_tags_sound; eauto | apply IH; assumption].
+  - inversion H; subst. rewrite (pkg_tags_complete k x y) by assumption. apply IH. assumption.
+Qed.
+Theorem index_validator_decides orig rb : index_rt_tags orig rb = [] <-> IndexRoundTrip orig rb.
+Proof.
+  unfold index_rt_tags, IndexRoundTrip. destruct rb as [l| | |].
+  - rewrite pkgs_tags_iff. split; [intro H; exists l; auto | intros (l' & E & H); injection E as <-; exact H].
+  - split; [discriminate | intros (l' & E & _); discriminate].
+  - split; [discriminate | intros (l' & E & _); discriminate].
+  - split; [discriminate | intros (l' & E & _); discriminate].
+Qed.
